@@ -280,7 +280,8 @@ class ExprGen:
 # ---------------------------------------------------------------------------
 # template trees
 
-TEXTS = ["", " ", "\n", "text ", "a b", "<p>", "</p>\n", "  x  ", "{ % }", "é", "-", "1 < 2", "\n\n  "]
+TEXTS = ["", " ", "\n", "text ", "a b", "<p>", "</p>\n", "  x  ", "{ % }", "é", "-", "1 < 2", "\n\n  ",
+         "dos\r\nline", "mac\rline"]
 
 
 class TreeGen:
@@ -485,7 +486,20 @@ class TreeGen:
         if r.chance(0.3):
             clauses.append(["else", "", self.body(depth + 1)])
         self.ex.scope.remove(var)
-        return ["block", "for", "%s in %s%s" % (var, src, args), body, clauses, "endfor", self.wc()]
+        loop = ["block", "for", "%s in %s%s" % (var, src, args), body, clauses, "endfor", self.wc()]
+        x = r.random()
+        if x < 0.15:
+            # what a loop leaves behind: its variable and `forloop` are read after it has ended
+            return ["seq", [loop, ["out", var, ""], ["out", "forloop.index", ""], ["out", "forloop.parentloop.index", ""]]]
+        if x < 0.25:
+            # the same loop three times with `offset: continue`, the collection empty the second time
+            # (the loop key is the source text `it-(1..n)`, so the three share their resume position)
+            def again(extra):
+                return ["block", "for", "it in (1..n) limit: 2%s" % extra, [["out", "it", ""]], [], "endfor", ""]
+            return ["seq", [["tag", "assign", "n = 9", ""], again(""), ["text", "|"], ["tag", "assign", "n = 0", ""],
+                            again(", offset: continue"), ["text", "|"], ["tag", "assign", "n = 9", ""],
+                            again(", offset: continue"), ["text", "|"], loop]]
+        return loop
 
     def n_tablerow(self, depth):
         r = self.rng
@@ -616,10 +630,14 @@ def gen_inheritance(rng, flags, name_base="base"):
     for b in bnames:
         req = rng.chance(0.2)
         body = [] if req else [["text", "base-%s " % b], ["out", ex.filtered(1), ""]]
+        if body and rng.chance(0.5):
+            # the parent block has effects on the render (reached through block.super as well)
+            body += [["tag", "assign", "fx_%s = 'set-in-%s'" % (b, b), ""], ["tag", "increment", "fxc", ""]]
         base.append(["block", "block", b + (" required" if req else ""), body, [],
                      "endblock" + (" " + b if rng.chance(0.3) else ""), ""])
         base.append(["text", "|"])
     base.append(["text", ">"])
+    base += [["out", "fx_%s" % b, ""] for b in bnames] + [["tag", "increment", "fxc", ""]]
 
     def child(parent, level):
         nodes = [["tag", "extends", "'%s'" % parent, ""]]
